@@ -145,8 +145,20 @@ package ovmf
 
 // (No allocation budget is stated for parse: the zero-filled buffers of TD HOB / temp-memory sections are sized by
 // the metadata alone, which is the recorded C08 finding at the make() below; see /verif/known_findings.txt.)
+// C05 (sections in declared order): one region per metadata section, in declared order, at the section's declared
+// address and size; firmware-volume sections carry the image bytes at the section's data offset; the region that
+// receives the hand-off block is the region of the (last) TD HOB section. (The clauses name the decoded metadata, a
+// local of parse: they are tagged internal - proved here, not exported to callers.)
 //@ func (*tdxFwParser).parse
 //@   assigns p.Regions, p.TDHOBregion
+//@   ensures[C05,internal] err == nil ==> len(result0) == len(metadata.Sections) && forall(k, 0 <= k && k < len(result0) ==> result0[k].GPR.Start == metadata.Sections[k].MemoryBase && result0[k].GPR.Length == metadata.Sections[k].MemorySize)
+//@   ensures[C05,internal] err == nil ==> tdHOBregionIndex != nil && 0 <= tdHOBregionIndex.Value && tdHOBregionIndex.Value < len(result0) && metadata.Sections[tdHOBregionIndex.Value].SectionType == 2 && p.TDHOBregion == result0[tdHOBregionIndex.Value]
+//@   loop 1 invariant[C05] forall(k, 0 <= k && k < len(p.Regions) ==> p.Regions[k].GPR.Start == metadata.Sections[k].MemoryBase && p.Regions[k].GPR.Length == metadata.Sections[k].MemorySize)
+//@   loop 1 invariant[C05] tdHOBregionIndex != nil ==> metadata.Sections[tdHOBregionIndex.Value].SectionType == 2
+// (regions are allocated one after the other, so they are pairwise distinct objects)
+//@   loop 1 invariant[C05] forall(i, Int, forall(j, Int, 0 <= i && i < j && j < len(p.Regions) ==> ref(p.Regions[i]) < ref(p.Regions[j])))
+//@   ensures[C05,internal] err == nil ==> forall(k, 0 <= k && k < len(result0) && metadata.Sections[k].SectionType <= 1 ==> same(result0[k].HostBuffer, firmware[metadata.Sections[k].DataOffset : metadata.Sections[k].DataOffset + metadata.Sections[k].MemorySize]))
+//@   loop 1 invariant[C05] forall(k, 0 <= k && k < len(p.Regions) && metadata.Sections[k].SectionType <= 1 ==> same(p.Regions[k].HostBuffer, firmware[metadata.Sections[k].DataOffset : metadata.Sections[k].DataOffset + metadata.Sections[k].MemorySize]))
 //@   ensures[C08] forall(k, 0 <= k && k < len(result0) ==> result0[k] != nil)
 //@   requires p != nil && len(firmware) < 2147483648 && same(p.Regions, nil) && len(guestRAMbanks) < 1048576
 //@   sweep[C08]
